@@ -1,8 +1,8 @@
 CONSTANTS MaxClock = 4 W = 2 TTL = 2 Cap = 1
  Genuine <- MCGenuine
  ForgedIds = {"f"} LocalIds = {}
- KeyModes = {TRUE}
- Paths = {"sleep","wake"} Peers = {"p1","p2"} NewPeers = {} Maintenance = TRUE
+ KeyModes = {TRUE} SleepModes = {TRUE}
+ Paths = {"sleep","wake"} Peers = {"p1","p2"} NewPeers = {} Maintenance = TRUE SplitCleanup = FALSE
  Dev = {} OneDev = FALSE Emit = FALSE
 INIT Init
 NEXT Next
